@@ -39,6 +39,9 @@ def plan(tier, seed):
     for feat in FOCUS:
         fam = 'probe:' + feat if feat in opened else 'main'
         cases += [{'family': fam, 'cseed': rnd.randrange(1 << 30), 'want': feat} for _ in range(k)]
+    # update_var / node_values on one of two circuits that were built from the same PopulationTemplate / Connectivity containers
+    # (or derived with update_template): the other circuit and the shared population objects must stay what they were (machinery of C16 / C07)
+    cases += [{'family': 'population_sibling', 'cseed': rnd.randrange(1 << 30)} for _ in range(16 if tier == 'quick' else 300)]
     return cases
 
 
@@ -100,6 +103,14 @@ def fp_all(tmpl, objs, sibling):
 
 
 def run_case(case, ctx):
+    if case.get('family') == 'population_sibling':
+        from vp.props import c16
+        if 'c16ctx' not in ctx:
+            ctx['c16ctx'] = {}
+            c16.warmup(ctx['c16ctx'])
+        res = c16.run_case(dict(case, family='update_sibling'), ctx['c16ctx'])
+        res.setdefault('mech', {})['population_sibling_cases'] = 1
+        return res
     if case.get('spec') is not None:
         spec, seq, vecs = case['spec'], case['seq'], case['vecs']
         feats, risk = gen.features(spec)
